@@ -21,6 +21,7 @@ def accounted : List (BlockOp × Reason) := [
   (⟨"command/root.go", "startScanEngine", "recv", "time.After(conf.exitDelay)", "none"⟩, .exitDelay),
   (⟨"pkg/packet/afpacket/readwriter.go", "Source.Close", "call", "s.mu.Lock", "none"⟩, .boundedSection),
   (⟨"pkg/packet/afpacket/readwriter.go", "Source.ReadPacketData", "call", "s.mu.Lock", "none"⟩, .boundedSection),
+  (⟨"pkg/packet/afpacket/readwriter.go", "Source.SetBPFFilter", "call", "s.mu.Lock", "none"⟩, .boundedSection),
   (⟨"pkg/packet/readwriter.go", "rateLimitReadWriter.WritePacketData", "call", "rw.limiter.Take", "none"⟩, .abandoned),
   (⟨"pkg/packet/receiver.go", "receiver.ReceivePackets", "call", "time.Sleep", "none"⟩, .boundedSleep),
   (⟨"pkg/packet/receiver.go", "receiver.ReceivePackets", "go", "func", "none"⟩, .spawn),
